@@ -26,7 +26,7 @@ from translate import gen_rules
 
 PROP = 'C11'
 
-OPT_PROB = {'expr_move': 0.05, 'lambda': 0.12, 'ternary': 0.15, 'comp_not': 0.15, 'unary': 0.2, 'move': 0.5, 'function': 0.8, 'param': 0.3, 'if': 0.5}
+OPT_PROB = {'arg': 0.45, 'args': 0.5, 'expr_move': 0.05, 'lambda': 0.12, 'ternary': 0.15, 'comp_not': 0.15, 'unary': 0.2, 'move': 0.5, 'function': 0.8, 'param': 0.3, 'if': 0.5}
 JUNK = ['$', '?', '@', '!', '~', '^', '&', '|', ';', '`', '=', ':', ',', '.', '(', ')', '[', ']', '{', '}', '->', '...', '**', '+=', '<<', 'if', 'else', 'lambda', 'not', 'in', 'def', '\n', '\\INDENT', '\\DEDENT', '\\OP_UNARY_MINUS', 'x', '1', "'s'"]
 
 
@@ -54,13 +54,17 @@ class PyWorld:
 		from data.syntax.py_rules import py_rules
 		from rogw.tranp.implements.syntax.tranp.tokenizer import Tokenizer
 		self.rules = py_rules()
+		# sentences are derived from an INDEPENDENT reading of the grammar text, never from the loaded rule objects: a regression in
+		# the rule loader (from_ast / py_rules.py) must show up as a derivable sentence that the engine rejects
+		with open(os.path.join(common.REPO, 'data/syntax/py_gram.lark'), 'rb') as f:
+			self.grammar = gramlib.read_lark(f.read().decode('utf-8'))
 		self.tokenizer = Tokenizer()
 		self.regexps = gen_rules.regexps_of(self.rules)
 		self.rng = rng
 		self.vocabulary = sorted({k for k in self.rules.keywords if k not in self.regexps} | set(JUNK) | set(gramlib.NAME_POOL[:6]) | {'1', '0.5', "'s'", 'True', 'None', '<', '==', '+', '-', '*', '%'})
 
 	def sampler(self, max_depth: int) -> gramlib.Sampler:
-		return gramlib.Sampler(self.rules, self.rng, max_depth, OPT_PROB)
+		return gramlib.Sampler(self.grammar, self.rng, max_depth, OPT_PROB)
 
 	def sentence(self, level: str, size: int) -> list[str]:
 		"""A derivation of `entry` (statement level) or of a single expression statement."""
